@@ -4,6 +4,7 @@ package harness
 
 import (
 	"context"
+	"crypto/tls"
 	"errors"
 	"fmt"
 	"net"
@@ -87,6 +88,8 @@ func (s *switchHandler) ServeHTTP(w http.ResponseWriter, r *http.Request) {
 	}
 	h.ServeHTTP(w, r)
 }
+
+var c13SessionCache = tls.NewLRUClientSessionCache(16)
 
 var (
 	c13Once    sync.Once
@@ -193,6 +196,18 @@ func propC13(c c13Case) *Outcome {
 			tr := rt.(*http.Transport).Clone()
 			tr.DialContext = func(ctx context.Context, network, _ string) (net.Conn, error) {
 				return (&net.Dialer{}).DialContext(ctx, network, real)
+			}
+			if c.TLS {
+				// a client that resumes TLS sessions: every case dials anew, all share one session cache, so
+				// from the second such case on the handshake is an abbreviated one - it is TLS all the same
+				tr.TLSClientConfig = tr.TLSClientConfig.Clone()
+				tr.TLSClientConfig.ClientSessionCache = c13SessionCache
+				tr.DisableKeepAlives = true
+			} else {
+				// a transport that could also dial TLS by itself; for http:// URLs net/http never uses this
+				tr.DialTLSContext = func(ctx context.Context, network, addr string) (net.Conn, error) {
+					return nil, errors.New("harness: DialTLSContext used for a plain-http URL")
+				}
 			}
 			defer tr.CloseIdleConnections()
 			rt = tr
